@@ -302,6 +302,8 @@ func ParseData(data []byte) (Config, error) {
 						MappingType:      mappingType,
 						Note:             note,
 						NoteNeg:          noteNeg,
+						ChannelOffset:    byte(analog.ChannelOffset),
+						ChannelOffsetNeg: byte(analog.ChannelOffsetNegative),
 						FlipAxis:         analog.FlipAxis,
 						Bidirectional:    bidirectional,
 						DeadzoneAtCenter: analog.DeadzoneAtCenter,
